@@ -775,11 +775,19 @@ def callGroups (ignore : Bool) (op : Op) (tail : Option Err) :
     | (.ok v, s') => let r := callGroups ignore op tail s' gs; (normOuts op v :: r.1, r.2)
     | (.error e, s') => if terminal ignore e then ([], some e) else callGroups ignore op tail s' gs
 
+/-- with skipping on, an element that raised a skippable error is left out (every remaining error is
+terminal; with skipping off nothing changes) -/
+def skipNT {α : Type} (ignore : Bool) : List (Ev α) → List (Ev α)
+  | [] => []
+  | .ok a :: rest => .ok a :: skipNT ignore rest
+  | .error e :: rest => if terminal ignore e then .error e :: skipNT ignore rest else skipNT ignore rest
+
 /-- the four steps up to the regrouped output columns -/
 def batchedCols (ignore : Bool) (op : Op) (s : Nat) (src : List (Ev Val)) :
     List (List Val) × Option Err :=
-  -- 1. the input columns of the records, up to the first record that cannot be read
-  let p1 := observe (mapEv (fun r => liftErr (getInputs op r)) src)
+  -- 1. the input columns of the records, up to the first error that ends the stream; with skipping
+  --    on, a record whose inputs cannot be read with a skippable error is left out
+  let p1 := observe (skipNT ignore (mapEv (fun r => liftErr (getInputs op r)) src))
   -- 2. groups of `fn_batch_size` rows
   let p2 := regroup op.fnBatch op.inKeys.length p1
   -- 3. one call per group
@@ -820,12 +828,11 @@ def cleanLB {α : Type} (ignore : Bool) (evs : List (Ev α)) : Bool :=
 `Lemmas/PipeBatch.lean: BatchedOK`) -/
 def batchedOKB (ignore : Bool) (op : Op) (s : Nat) (src : List (Ev Val)) : Bool :=
   let l1 := mapEv (fun r => liftErr (getInputs op r)) src
-  let p1 := observe l1
+  let p1 := observe (skipNT ignore l1)
   let p2 := regroup op.fnBatch op.inKeys.length p1
   let p3 := callGroups ignore op p2.2 s p2.1
   cleanB ignore src && decide (0 < op.batch) && decide (0 < op.outKeys.length) &&
-  cleanLB ignore l1 &&
-  (op.fnBatch == 0 || (decide (0 < op.inKeys.length) && rectB op.inKeys.length p1.1)) &&
+  (op.fnBatch == 0 || (cleanLB ignore l1 && decide (0 < op.inKeys.length) && rectB op.inKeys.length p1.1)) &&
   rectB op.outKeys.length p3.1
 
 def runOKB (ignore : Bool) : List Op → List (Ev Val) → Bool
